@@ -79,4 +79,42 @@ pub fn emit(dir: &Path) {
       });
       write(dir, "KF-3b.json", "C04", "KF-3b", Program { rels, rules, macros: vec![] }, Kind::Ascent, vec![], db);
    }
+   // KF-5: parallel lattice whose non-key indices are Vec-backed: a row number is appended once per improvement
+   {
+      let rels = vec![
+         rel("edge", vec![Ty::I32, Ty::I32, Ty::U32], true),
+         lat("sp", vec![Ty::I32, Ty::I32, Ty::DualU32]),
+         rel("cnt", vec![Ty::I32, Ty::I32], false),
+      ];
+      let rules = vec![
+         Rule {
+            heads: vec![hd("sp", vec![v("x"), v("y"), Expr::DualOf(Box::new(v("w")))])],
+            body: vec![cl("edge", vec![av("x"), av("y"), av("w")])],
+         },
+         Rule {
+            heads: vec![hd("sp", vec![v("x"), v("z"), Expr::DualOf(Box::new(Expr::SatAdd(Box::new(v("w")), Box::new(v("l")), 50)))])],
+            body: vec![
+               cl("edge", vec![av("x"), av("y"), av("w")]),
+               cl("sp", vec![av("y"), av("z"), Arg::Pat(Pat::Dual(Box::new(Pat::Var("l".into()))))]),
+            ],
+         },
+         Rule {
+            heads: vec![hd("cnt", vec![v("x"), Expr::Cast(Box::new(v("n")), Ty::I32)])],
+            body: vec![
+               cl("edge", vec![av("x"), Arg::Wild, Arg::Wild]),
+               BodyItem::Agg { pat: Pat::Var("n".into()), agg: Aggregator::Count, bound: vec![], rel: "sp".into(), args: vec![av("x"), Arg::Wild, Arg::Wild] },
+            ],
+         },
+      ];
+      let mut db = Db::default();
+      // a long light path and short heavy edges: sp(1, 4) improves several times
+      db.rels.insert(
+         "edge".into(),
+         vec![
+            vec![i(1), i(2), i(1)], vec![i(2), i(3), i(1)], vec![i(3), i(4), i(1)],
+            vec![i(1), i(4), i(20)], vec![i(1), i(3), i(9)], vec![i(2), i(4), i(7)],
+         ],
+      );
+      write(dir, "KF-5.json", "C02", "KF-5", Program { rels, rules, macros: vec![] }, Kind::AscentPar, vec![], db);
+   }
 }
